@@ -110,12 +110,15 @@ CLAIMED = {
             "values. Byte-level round trips and user payload closures are not decided.",
             "DESIGN.md §4 C09"),
     "C10": ("who-may-write + dependence (fields read by the ping-due test) + dominance/post-dominance + decision-table "
-            "extraction on mir_built — structure of the mechanism only",
+            "extraction (truth table of the due test over the Option states) + interval abstract interpretation of the "
+            "send-interval function on mir_built — structure of the mechanism and one arithmetic clause",
             "PARTIAL: static analysis decides only the structure of keep-alive — who arms/clears the two deadlines and with "
             "which value shape, that the ping-due test depends only on keep-alive state, that every completed flush refreshes "
             "the schedule, that expiry is tested before servicing and latches, that the read is raced against the minimum of "
-            "both deadlines, one shared constant, zero disables. Every arithmetic or temporal aspect (the gap never exceeding "
-            "the keep-alive, coincidences at the deadlines, >= vs >) is NOT decided: it needs a model of time.",
+            "both deadlines, one shared constant, zero disables, and (by interval abstract interpretation over keep-alive "
+            "classes) that the PINGREQ lead time is positive and below the keep-alive for every keep-alive >= 1 s. Every other "
+            "arithmetic or temporal aspect (the observed gap never exceeding the keep-alive, coincidences at the deadlines, "
+            ">= vs >) is NOT decided: it needs a model of time.",
             "DESIGN.md §4 C10"),
     "C15": ("wiring of partial-I/O counts + value-set evaluation of the reader's look-ahead on mir_built",
             "PARTIAL: static analysis decides only that partial-I/O counts are what advances state: commit(count of this "
